@@ -98,6 +98,10 @@ CLAIMED = {
             "The timer of ActivityImpl::wait_for / wait_any_for is armed exactly for timeout >= 0 with date get_clock()+timeout and kept in the simcall's timeout_cb_; the timeout callback of wait_for times out only on paths that excluded a model action FINISHED or FAILED at the deadline (completion at the deadline counts as completed) and then unregisters, reports true and answers; completion disarms the timer in unregister_first_simcall; wait_for_or_cancel cancels inside its TimeoutException handler; the wait_any_for timeout unregisters the simcall from every activity and answers -1, which ActivitySet::wait_any_for maps to TimeoutException; all nine wait_for overrides register exactly one simcall per path; the S4U layer passes the user timeout unchanged and throws iff the simcall returns true. These hold for every timeout value and every completion date.",
             'That Timer::set fires at its date is C03; the relative order of a timer and an action ending at the same date is the one of EngineImpl::run (timers first), assumed; model-checking paths of wait_any_for are skipped (timeouts unsupported there, asserted by the code).',
             'DESIGN.md §3 C12'),
+    'C03': ('who-may-write over every unit that can see the clock member; finite-state abstract exploration of EngineImpl::solve and ::run (guarded advance, save/restore pairing, solve argument); dataflow identity of dates/durations along the timer, kill-time and sleep chains; loop-condition normal form of Timer::execute_all',
+            'EngineImpl::now_ has no writer outside EngineImpl::solve in any of the 78 units that can name it; in solve every path advances the clock only by now_ += time_delta after excluding time_delta < 0 since its last assignment, and every other write is a save/displace/restore triple closed before any exit; timers fire while clock >= date, the fired timer is the popped one, Timer::set and its template wrapper key the heap with the unmodified date; kill time and sleep durations reach Timer::set / set_max_duration unchanged (CpuCas01 only raises positive durations to the timing precision); run() never asks solve() to go beyond the next timer; finish times are stamped with the clock and copied to the activity. Valid for every program and every sequence of events.',
+            'The value the models return as next event (hence the actual dates of completions) and sub-precision behaviour are not decided.',
+            'DESIGN.md §3 C03'),
 }
 
 NOT_APPLICABLE = {
